@@ -549,6 +549,7 @@ func writeEvidence(h Harness, o Options, st *simrt.Stats, wall time.Duration, vi
 			"components_real":      d.Real,
 			"components_stub":      d.Stub,
 			"known_findings_hit":   st.Known,
+			"instrumented":         os.Getenv("VERIF_INSTRUMENTED") == "1",
 		},
 		"assumptions": d.Assumptions,
 		"wall_s":      wall.Seconds(),
